@@ -41,7 +41,8 @@ def build_cases(ctx):
                 combos = [(op, fin) for op in (0, 1, 2) for fin in (0, 1)]
         for op, fin in combos:
             ci += 1
-            keymode = ("script", "urandom", "strkey")[rnd.randrange(3)] if n > 4 else ("script", "urandom", "strkey")[ci % 3]
+            # (factory: the connection comes from create_connection(url, get_mask_key=source))
+            keymode = ("script", "urandom", "strkey", "factory")[rnd.randrange(4)] if n > 4 else ("script", "urandom", "strkey", "factory")[ci % 4]
             key = bytes(rnd.randrange(0x21, 0x7f) for _ in range(4)) if keymode == "strkey" else bytes(rnd.randrange(256) for _ in range(4))
             ptype = (bytes, bytearray)[rnd.randrange(2)]
             trace = (rnd.random() < 0.15) if n > 300 else bool(ci % 2)
@@ -112,6 +113,8 @@ def process_chunk(args):
     """runs one chunk of cases; returns plain data (used in-process and in worker processes)."""
     cases, seed, chunk_id = args
     import random as _random
+    import rx
+    rx.neighbours()        # other connections and earlier (traced) traffic in the same process must not show in what is written
     rr = _random.Random(f"{seed}:C01:oracle:{chunk_id}")
     lines, impls, metas = [], [], []
     for ci, c in enumerate(cases):
